@@ -27,6 +27,17 @@ CLAIMED["C07"] = dict(
     ref="DESIGN.md section 2 (C07)",
     technique="TLA+ refinement check with TLC (FJCoreMem => abstract memory) + scaled replay of TLC-generated scenarios judged by TLC trace validation against FJMachine")
 
+CLAIMED["C17"] = dict(
+    text="FJDevices.tla models FixedIO/StandardIO (byte buffers) and KeyboardIO (polling protocol, stable tic order) with "
+         "implementation-shaped state; TLC checks exhaustively, over all call sequences of bounded length x input strings x event "
+         "scripts, that collected output is the LSB-first packing of the written bits with incompleteness reported, reads are the "
+         "input's bits with EOF exactly after the last, and the keyboard stream is the protocol's; every maximal behaviour is replayed "
+         "call by call into the real FixedIO, StandardIO (verbose/quiet) and KeyboardIO (list and from_text) objects and every result compared.",
+    note="Trusted: FJDevices.tla's declarative definitions (Pack, BitsOfBytes, KbdStream); TLC. Bounded: call sequences <= 12-16 writes, "
+         "<= 28 reads, <= 100 keyboard reads, 6 event scripts, 5 input strings. StandardIO is driven through a latin-1 text wrapper.",
+    ref="DESIGN.md section 2 (C17)",
+    technique="TLA+ spec + TLC exhaustive model checking of all bounded call sequences; spec->code replay with per-call result equality")
+
 NOT_YET = {}
 
 
